@@ -208,6 +208,28 @@ def part2(res, r):
             u = 'raised %r' % (e,)
         if u != want:
             res.oracle_fail.append({'case': {'value': repr(v), 'form': 'ustr(v)'}, 'what': 'got %r, expected %r' % (u, want)})
+    # class objects (not instances): their str() form; a class reaches ustr through an expression (a name would call it)
+    for v in (int, str, dict, ValueError, KeyError, S, MyErr, type, object):
+        res.evaluations += 1
+        res.nt(('ustr', 'class', v.__name__))
+        want = str(v)
+        for src in ('[<dtml-var expr="v">]', '<dtml-if one>[<dtml-var expr="v">]</dtml-if>', '[<dtml-var expr="v" html_quote>]'):
+            try:
+                got = HTML(src)(v=v, one=1)
+            except Exception as e:  # noqa
+                got = 'raised %r' % (e,)
+            import html
+            w = '[%s]' % (html.escape(want, 1) if 'html_quote' in src else want)
+            if got != w:
+                res.oracle_fail.append({'case': {'value': 'class ' + v.__name__, 'form': src},
+                                        'what': 'got %r, expected %r' % (got, w)})
+        try:
+            u = ustr(v)
+        except Exception as e:  # noqa
+            u = 'raised %r' % (e,)
+        if u != want:
+            res.oracle_fail.append({'case': {'value': 'class ' + v.__name__, 'form': 'ustr(v)'},
+                                    'what': 'got %r, expected %r' % (u, want)})
     # conversion raises only when the value's own __str__ misbehaves
     for v, exc in ((BadStr(), (ValueError, TypeError)), (RaisingStr(), (ZeroDivisionError,))):
         res.evaluations += 1
